@@ -109,6 +109,12 @@ def parse_unit(path, _seen=None):
                 i += 1
                 raw_start = i + 1
                 continue
+            if d.startswith("forward ") or d.startswith("forward1 "):
+                flush()
+                segs.append(("raw", gen_forwarders(d), os.path.relpath(path, ROOT) + " (generated forwarders, R3)", i + 1))
+                i += 1
+                raw_start = i + 1
+                continue
             if d == "canary":
                 flush()
                 segs.append(("raw", "proof fn vx_canary() ensures false { }\n", "<canary>", 0))
@@ -128,6 +134,60 @@ def parse_unit(path, _seen=None):
         i += 1
     flush()
     return segs
+
+
+def gen_forwarders(d):
+    """R3: the trait impls auto_ops generates around an `impl_op*!` closure, written out so that Verus sees them.
+    `forward Tr m fn A B C [commutative]`: impl_op_ex! -- the four ownership variants (and the swapped four);
+    `forward1 Tr m fn A C`: impl_op! on a unary operator -- exactly the given operand type."""
+    w = d.split()
+    out = []
+    if w[0] == "forward1":
+        _, Tr, m, fn, A, C = w[:6]
+        ref = A.startswith("&")
+        base = A.lstrip("&")
+        lt = "<'a>" if ref else ""
+        L = f"&'a {base}" if ref else base
+        arg = "self" if ref else "&self"
+        out.append(f"""impl{lt} vstd::std_specs::ops::{Tr}SpecImpl for {L} {{
+    open spec fn obeys_{m}_spec() -> bool {{ false }}
+    open spec fn {m}_req(self) -> bool {{ {fn}_req({arg}) }}
+    open spec fn {m}_spec(self) -> {C} {{ arbitrary() }}
+}}
+impl{lt} core::ops::{Tr} for {L} {{
+    type Output = {C};
+    fn {m}(self) -> (r: {C}) ensures {fn}_post({arg}, &r) {{ {fn}({'self' if ref else 'self'}) }}
+}}
+""")
+        return "".join(out)
+    _, Tr, m, fn, A, B, C = w[:7]
+    comm = "commutative" in w[7:]
+    a0, b0 = A.lstrip("&"), B.lstrip("&")
+
+    def one(L0, R0, lref, rref, swapped):
+        lts = [x for x, on in (("'a", lref), ("'b", rref)) if on]
+        lt = "<" + ", ".join(lts) + ">" if lts else ""
+        L = (f"&'a {L0}" if lref else L0)
+        R = (f"&'b {R0}" if rref else R0)
+        la = "self" if lref else "&self"
+        ra = "rhs" if rref else "&rhs"
+        args = f"{ra}, {la}" if swapped else f"{la}, {ra}"
+        return f"""impl{lt} vstd::std_specs::ops::{Tr}SpecImpl<{R}> for {L} {{
+    open spec fn obeys_{m}_spec() -> bool {{ false }}
+    open spec fn {m}_req(self, rhs: {R}) -> bool {{ {fn}_req({args}) }}
+    open spec fn {m}_spec(self, rhs: {R}) -> {C} {{ arbitrary() }}
+}}
+impl{lt} core::ops::{Tr}<{R}> for {L} {{
+    type Output = {C};
+    fn {m}(self, rhs: {R}) -> (r: {C}) ensures {fn}_post({args}, &r) {{ {fn}({args}) }}
+}}
+"""
+    for lref in (True, False):
+        for rref in (True, False):
+            out.append(one(a0, b0, lref, rref, False))
+            if comm:
+                out.append(one(b0, a0, lref, rref, True))
+    return "".join(out)
 
 
 def _parse_extract(lines, i, path):
